@@ -1,136 +1,4 @@
-/- Line-protocol driver for C01/C05/C08: the result-type generation model. -/
-import AriadneModel.Driver.Wire
-import AriadneModel.Driver.GqlWire
-import AriadneModel.Model.ResultTypes
-import AriadneModel.Model.Triggers01
-import AriadneModel.Spec.Pyd
-import AriadneModel.Spec.Exec
+/- Line-protocol driver for C01: the result-type generation model, pydantic reference semantics, triggers. -/
+import AriadneModel.Driver.ResultHandle
 
-open Lean (Json)
-open Ariadne Ariadne.Gql Ariadne.ResultTypes
-
-partial def encAnn : Ann → Json
-  | .name n => Json.mkObj [("k", "name"), ("n", n)]
-  | .cls n => Json.mkObj [("k", "cls"), ("n", n)]
-  | .optional a => Json.mkObj [("k", "optional"), ("a", encAnn a)]
-  | .list a => Json.mkObj [("k", "list"), ("a", encAnn a)]
-  | .union as => Json.mkObj [("k", "union"), ("as", Json.arr (as.map encAnn).toArray)]
-  | .disc a => Json.mkObj [("k", "disc"), ("a", encAnn a)]
-  | .literal vs => Json.mkObj [("k", "literal"), ("vs", Json.arr (vs.map Json.str).toArray)]
-  | .before t p => Json.mkObj [("k", "before"), ("type", t), ("parse", p)]
-
-def encField (f : FieldDecl) : Json :=
-  Json.mkObj [("py", f.py), ("ann", encAnn f.ann), ("alias", match f.alias with | some a => Json.str a | none => Json.null),
-    ("disc", f.discriminator), ("defaultNone", f.defaultNone)]
-
-def encClass (c : ClassDecl) : Json :=
-  Json.mkObj [("name", c.name), ("bases", Json.arr (c.bases.map Json.str).toArray), ("fields", Json.arr (c.fields.map encField).toArray)]
-
-def strs (xs : List String) : Json := Json.arr (xs.map Json.str).toArray
-
-def encErr : GenErr → Json
-  | .notSupported m => Json.mkObj [("error", "refusal:NotSupported"), ("msg", m)]
-  | .parsing m => Json.mkObj [("error", "refusal:ParsingError"), ("msg", m)]
-  | .internal e => Json.mkObj [("error", "internal:" ++ e)]
-  | .fuel => Json.mkObj [("error", "fuel")]
-
-def encOut (o : ModuleOut) : Json :=
-  Json.mkObj [("classes", Json.arr (o.classes.map encClass).toArray), ("rebuild", strs o.rebuild),
-    ("usedEnums", strs o.st.usedEnums), ("usedScalars", strs o.st.usedScalars), ("mixins", strs o.st.mixins),
-    ("unpacked", strs o.st.unpacked), ("publicNames", strs o.st.publicNames),
-    ("mixinImports", Json.arr (o.st.mixinImports.map fun (a, b) => Json.arr #[.str a, .str b]).toArray),
-    ("marks", Json.arr (o.st.marks.map fun (n : Nat) => (n : Json)).toArray)]
-
-def decEnv (j : Json) : Except String Env := do
-  let schema ← GqlWire.schema (← j.getObjVal? "schema")
-  let frags ← (← GqlWire.arr j "fragments").mapM GqlWire.fragment
-  let scalars ← (← GqlWire.arr j "scalars").mapM fun s => do
-    pure ({ name := ← GqlWire.str s "name", typeName := ← GqlWire.str s "typeName", parseName := ← GqlWire.optStr s "parseName" } : ScalarCfg)
-  pure { schema := schema, frags := frags, scalars := scalars, snake := GqlWire.boolD j "snake" true }
-
-def decOps (j : Json) : Except String (List Operation) := do
-  (← GqlWire.arr j "operations").mapM GqlWire.operation
-
-def lookupTable (j : Json) (k : String) : List (String × Json) :=
-  match j.getObjVal? k with
-  | .ok (.obj kvs) => kvs.toList   -- key order is irrelevant for a lookup table
-  | _ => []
-
-/-- pydantic-core's lax string parsers, supplied by the harness as tables computed with the real library -/
-def decLax (j : Json) : Pyd.Lax :=
-  let ti := lookupTable j "strInt"
-  let tf := lookupTable j "strFloat"
-  let tb := lookupTable j "strBool"
-  { strInt := fun s => match ti.find? (·.1 == s) with
-      | some (_, v) => (v.getInt?).toOption
-      | none => none
-    strFloat := fun s => match tf.find? (·.1 == s) with
-      | some (_, .num n) => some (n.mantissa, n.exponent)
-      | _ => none
-    strBool := fun s => match tb.find? (·.1 == s) with
-      | some (_, .bool b) => some b
-      | _ => none }
-
-def encVErr : Pyd.VErr → Json
-  | .missing f => Json.mkObj [("err", "missing"), ("field", f)]
-  | .wrongType t => Json.mkObj [("err", "wrongType"), ("expected", t)]
-  | .tagNotFound => Json.mkObj [("err", "tagNotFound")]
-  | .tagInvalid t => Json.mkObj [("err", "tagInvalid"), ("tag", t)]
-  | .noUnionMember => Json.mkObj [("err", "noUnionMember")]
-  | .literal => Json.mkObj [("err", "literal")]
-  | .unknownClass n => Json.mkObj [("err", "unknownClass"), ("cls", n)]
-  | .fuel => Json.mkObj [("err", "fuel")]
-
-def pydEnv (env : ResultTypes.Env) (opOut : ModuleOut) (r : Triggers01.Run) (lax : Pyd.Lax) : Pyd.Env :=
-  let fragClasses := r.frags.foldl (fun acc (_, x) => match x with
-    | .ok o => acc ++ o.classes
-    | .error _ => acc) []
-  { classes := opOut.classes ++ fragClasses,
-    enums := (env.schema.types.filter (·.kind == .enum)).map fun t => (t.name, t.values),
-    lax := lax }
-
-def handle (j : Json) : Except String Json := do
-  let op ← Wire.fieldStr j "op"
-  match op with
-  | "resultTypes" =>
-    let env ← decEnv j
-    let d ← match j.getObjVal? "operation" with
-      | .ok o => do pure (Definition.op (← GqlWire.operation o))
-      | .error _ => do pure (Definition.frag (← GqlWire.fragment (← j.getObjVal? "fragment")))
-    let marksIn ← (← GqlWire.arr j "marksIn").mapM fun x => x.getNat?
-    match generate env 100000 d marksIn with
-    | .ok out => pure (encOut out)
-    | .error e => pure (encErr e)
-  | "triggers" =>
-    let env ← decEnv j
-    let ops ← decOps j
-    pure (strs (Triggers01.triggers { env := env, ops := ops }))
-  | "leafConforms" =>
-    -- Spec.Exec.conforms / ResultLeaf-style lax conformance on one (type, value) pair
-    let env ← decEnv j
-    let t ← GqlWire.typeRef (← j.getObjVal? "type")
-    let v ← Wire.dec (← j.getObjVal? "value")
-    pure (Json.mkObj [("conforms", Exec.conforms env.schema true t v)])
-  | "validate" =>
-    -- validate payloads against the root class of operation number `index` (Spec.Pyd on the MODEL's classes)
-    let env ← decEnv j
-    let ops ← decOps j
-    let idx ← Wire.fieldNat j "index"
-    let payloads ← (← GqlWire.arr j "payloads").mapM Wire.dec
-    let r := Triggers01.run { env := env, ops := ops }
-    match r.ops[idx]? with
-    | some (.ok out) =>
-      match out.classes.head? with
-      | some root =>
-        let penv := pydEnv env out r (decLax j)
-        let res := payloads.map fun p =>
-          match Pyd.validate penv 1000 (.cls root.name) p with
-          | .ok v => Json.mkObj [("ok", Wire.enc (Pyd.dump v))]
-          | .error e => encVErr e
-        pure (Json.arr res.toArray)
-      | none => pure (Json.mkObj [("error", "no classes")])
-    | some (.error e) => pure (encErr e)
-    | none => throw "index out of range"
-  | _ => throw s!"unknown op {op}"
-
-def main : IO Unit := Ariadne.Wire.loop handle
+def main : IO Unit := Ariadne.Wire.loop Ariadne.ResultDriver.handle
